@@ -42,7 +42,8 @@ func (p *Pegnet) InsertSynced(tx *sql.Tx, bs *BlockSync) error {
 func (Pegnet) SelectSynced(ctx context.Context, tx QueryAble) (*BlockSync, error) {
 
 	var data []byte
-	err := tx.QueryRowContext(ctx, "SELECT value FROM pn_metadata WHERE name = $1", "synced").Scan(&data)
+	// not QueryRowContext: the API calls this with the HTTP request's context (see SelectMinerDominance)
+	err := tx.QueryRow("SELECT value FROM pn_metadata WHERE name = $1", "synced").Scan(&data)
 	if err != nil {
 		return nil, err
 	}
